@@ -1088,6 +1088,12 @@ mod c04 {
             rec::emit(json!({"ev":"step_end","polls":polls2(),"sent":sent2(),"ok":ok}));
         }
 
+        /// Sim::set_link_latency on the link of the protocol pair (v steps)
+        pub fn set_lat(&mut self, v: u64, tick: u64) {
+            self.sim.set_link_latency(hname(1), hname(2), ms(v * tick));
+            rec::emit(json!({"ev":"setlat","v":v}));
+        }
+
         fn tables(&self, h: usize) -> Value {
             let t = self.sim.verif_host_tables(hname(h));
             json!({"udp": t.udp_binds.len(), "tcp": t.tcp_binds.len(), "mcast": t.multicast_memberships,
@@ -1266,6 +1272,7 @@ mod c04 {
                 "cmd" => Some(json!({"ev":"cmd","h":e["h"],"op":e["op"],"id":e["id"],"res":e["res"],
                     "c": if e["op"] == "accept" || e["op"] == "usend" || e["op"] == "bg" || e["op"] == "listen" || e["op"] == "ubind" { json!(0) } else { e["c"].clone() }})),
                 "step_end" => Some(json!({"ev":"step_end","polls":e["polls"],"sent":e["sent"]})),
+                "setlat" => Some(json!({"ev":"setlat","v":e["v"]})),
                 "crash" => Some(json!({"ev":"crash","h":e["h"],"obs":e["obs"]})),
                 "bounce" => Some(json!({"ev":"bounce","h":e["h"],"obs":e["obs"]})),
                 _ => None,
@@ -1308,6 +1315,10 @@ mod c04 {
                             run.bounce(&hs)
                         }
                     }
+                    i += 1;
+                }
+                "setlat" => {
+                    run.set_lat(a["v"].as_u64().unwrap(), cfg.tick);
                     i += 1;
                 }
                 "step_begin" => {
@@ -1355,6 +1366,19 @@ mod c04 {
             divergence = Some(json!({"what":"observation","index":k,
                 "want": want.get(k).cloned().unwrap_or(json!(null)),
                 "got": got.get(k).cloned().unwrap_or(json!(null))}));
+            // second pass for the judge: the same behaviour followed by quiet steps, so that every
+            // deadline of the PropSpec (latency windows) lies inside the recorded trace
+            let mut long: Vec<Value> = beh.to_vec();
+            for _ in 0..12 {
+                long.push(json!({"a":"step_begin"}));
+                long.push(json!({"a":"step_end"}));
+            }
+            let (raw2, log2, _) = execute(&long, cfg, true);
+            let mut t2 = postprocess(raw2);
+            let (_, twin2, _) = execute(&long, cfg, false);
+            rec::take();
+            t2.push(json!({"ev":"twin","equal":log2 == twin2}));
+            trace = t2;
         } else if !equal {
             divergence = Some(json!({"what":"twin","detail":trace.last()}));
         }
@@ -1480,6 +1504,7 @@ mod c04 {
                 let mut nconn = 0u64;
                 let mut ndg = 0u64;
                 let mut m: Vec<Mirror> = vec![Mirror::default(); 3];
+                let mut cur_lat = cfg.lat_steps;
                 m[1].up = true;
                 m[2].up = true;
                 for _s in 0..steps {
@@ -1497,6 +1522,14 @@ mod c04 {
                             run.bounce(&hs)
                         }
                         nfault += 1;
+                    }
+                    if rng.random_bool(0.12) {
+                        let v = rng.random_range(1..=4u64);
+                        if v != cur_lat {
+                            cur_lat = v;
+                            script.push(json!({"a":"setlat","v":v}));
+                            run.set_lat(v, cfg.tick);
+                        }
                     }
                     script.push(json!({"a":"step_begin"}));
                     let mut per: Vec<Vec<Cmd>> = vec![Vec::new(); 5];
